@@ -130,6 +130,8 @@ HEADERS = [
     ('comp', 'for {X} in [{V} + 1 for {V} in xs]:', [], 'X', [], 'plain'),
 ]
 HEADERS_QUICK = ('xs', 'range', 'zip', 'enum', 'enumzip', 'zipw', 'enumzipw', 'zip_', 'enumi_', 'zipnest')
+HEADERS_MAIN = ('xs', 'zip', 'enum', 'enumzip', 'range', 'zipw')
+HEADERS_MAIN_Q = ('xs', 'zip', 'enum', 'enumzip')
 
 
 def _static_headers(sizes):
@@ -157,7 +159,7 @@ def _body_pool(lst: str):
         ('mut2', ['ys[len(ys) - 1] = {X} + 1'], '', ('mutate',)),
         ('muti', [f'{last} = {last} + {{I}}'], 'I', ('mutate',)),
         ('tmp', ['{T} = {X} * 2', '{A} = {A} + {T}'], '', ()),
-        ('nest', ['for {W} in ys:', '    {C} = 2 * {C} + {W} * {X}'], '', ('nested',)),
+        ('nest', ['for {W} in ys:', '    {C} = 2 * {C} + {W}'], '', ('nested',)),
         ('nestret', ['for {W} in ys:', '    {A} = {A} + {W}', '    if {W} > 7:', '        ' + RET],
          '', ('nested', 'early-return')),
         ('nestsame', ['for {X} in ys:', '    {A} = 2 * {A} + {X}'], '', ('nested', 'reassign-target')),
@@ -165,7 +167,9 @@ def _body_pool(lst: str):
         ('nestlit', ['for {W} in [1, 2, 3]:', '    {A} = 2 * {A} + {W}'], '', ('nested',)),
         ('nestmut', ['for {W} in ys:', f'    {last} = {{W}}', '    {A} = {A} + {W}'], '', ('nested', 'mutate')),
         ('nestrng', ['for {W} in range({X}):', '    {A} = {A} + {W}'], '', ('nested',)),
-        ('while', ['{K} = 0', 'while {K} < {X}:', '    {A} = {A} + {K}', '    {K} = {K} + 2'], '', ('nested',)),
+        # the counter steps under the exact integer context so the loop ends under any ambient context
+        ('while', ['{K} = 0', 'while {K} < {X}:', '    {A} = {A} + {K}', '    with fp.INTEGER:',
+                   '        {K} = {K} + 2'], '', ('nested',)),
         ('any', ['if any([{V} > {X} for {V} in ys]):', '    {C} = {C} + 1'], '', ()),
         ('zcomp', ['{A} = {A} + sum([{V} * {V2} for {V}, {V2} in zip(xs, ys)])'], '', ()),
     ]
@@ -181,8 +185,6 @@ def _useful(seq):
 
 def for_programs():
     """List of (Prog, in_core)."""
-    full = True
-    schemes_all = ['loop', 'iter', 'plain', 'num']
     headers = list(HEADERS)
     statics = _static_headers((1, 2, 3, 4, 5, 6))
     out = []
@@ -231,38 +233,46 @@ def for_programs():
         pool = {p[0]: p for p in plist}
         avail = [p[0] for p in plist if all(ch in binds for ch in p[2])]
         is_static = key.startswith('lit') or key.startswith('loc')
-        q_header = key in HEADERS_QUICK or key in ('lit3', 'loc4', 'loc5', 'lit1')
+        q_header = key in HEADERS_QUICK
+        q_static = key in ('lit1', 'lit3', 'loc4', 'loc5')
+        main = key in HEADERS_MAIN
         core_tags = [t for t in avail if t in BODY_CORE]
         done = set()
         # (1) all sequences of length <= 2 over the core pool, scheme `loop`, ambient context
         for seq in seqs(core_tags, 2, binds):
-            emit(hdr, seq, pool, 'loop', None, q_header and (not is_static or len(seq) == 1 or 'mut' in seq
-                                                            or 'nest' in seq))
+            core = key in HEADERS_MAIN_Q or ((q_header or q_static) and len(seq) == 1) or \
+                (q_static and seq in (('mut', 'acc'), ('acc', 'mut'), ('nest', 'acc'), ('ret', 'acc')))
+            emit(hdr, seq, pool, 'loop', None, core)
             done.add((seq, 'loop', None))
-        # (2) every single statement under every scheme and context
+        # (2) every single statement under the naming schemes and ambient contexts
+        if is_static:
+            combos = [('loop', None), ('iter', None), ('loop', 'fix2')]
+        else:
+            combos = [('loop', None), ('loop', 'fix2'), ('loop', 'p2'), ('iter', None), ('iter', 'fix2'),
+                      ('plain', None), ('num', None)]
         for tag in avail:
-            for scheme in (schemes_all if full else schemes_all[:3]):
-                for wrap in (None, 'fix2', 'p2'):
-                    if ((tag,), scheme, wrap) in done:
-                        continue
-                    core = q_header and not is_static and wrap != 'p2' and (scheme != 'plain' or wrap is None) \
-                        and (tag in BODY_CORE or scheme == 'loop')
-                    emit(hdr, (tag,), pool, scheme, wrap, core)
-                    done.add(((tag,), scheme, wrap))
-        if not full:
-            continue
-        # (3) thorough: all sequences of length 2 over the whole pool (scheme alternates by header),
-        #     and length 3 over the core pool for the main headers
+            for scheme, wrap in combos:
+                if ((tag,), scheme, wrap) in done:
+                    continue
+                core = q_header and ((tag in BODY_CORE and (scheme, wrap) in
+                                      (('loop', 'fix2'), ('iter', None), ('iter', 'fix2'), ('plain', None)))
+                                     or (scheme, wrap) == ('loop', None)
+                                     or (main and tag == 'acc' and (scheme, wrap) in (('loop', 'p2'), ('num', None))))
+                emit(hdr, (tag,), pool, scheme, wrap, core)
+                done.add(((tag,), scheme, wrap))
+        # (3) all sequences of length 2 over the whole pool, main headers and one static one
         sch = 'iter' if kindof(hdr) in ('zip', 'enumerate', 'enumerate-zip') else 'loop'
-        for seq in seqs(avail, 2, binds):
-            if (seq, sch, None) not in done:
-                emit(hdr, seq, pool, sch, None, False)
-                done.add((seq, sch, None))
-        if key in ('xs', 'zip', 'enum', 'enumzip', 'loc4', 'loc5'):
+        if main or key == 'loc5':
+            for seq in seqs(avail, 2, binds):
+                if (seq, sch, None) not in done:
+                    emit(hdr, seq, pool, sch, None, False)
+                    done.add((seq, sch, None))
+        # (4) length 3 over the core pool
+        if key in ('xs', 'zip', 'enumzip', 'loc5'):
             for seq in seqs(core_tags, 3, binds):
                 if len(seq) == 3:
                     emit(hdr, seq, pool, sch, None, False)
-        # core sequences of length 2 under the narrow contexts
+        # (5) core sequences of length 2 under a narrow context
         for seq in seqs(core_tags, 2, binds):
             if len(seq) == 2 and not is_static:
                 emit(hdr, seq, pool, 'loop', 'fix2', False)
@@ -289,8 +299,8 @@ def while_programs():
     plist = [p for p in _body_pool('xs') if p[0] not in ('idx', 'yy', 'muti', 'zcomp', 'nestrng', 'nestlit')]
     pool = {p[0]: p for p in plist}
     # the nested `while` of the pool shares the counter name with the outer loop: give it its own
-    pool['while'] = ('while', ['{W} = 0', 'while {W} < {X}:', '    {A} = {A} + {W}', '    {W} = {W} + 2'], '',
-                     ('nested',))
+    pool['while'] = ('while', ['{W} = 0', 'while {W} < {X}:', '    {A} = {A} + {W}', '    with fp.INTEGER:',
+                               '        {W} = {W} + 2'], '', ('nested',))
     avail = [p[0] for p in plist]
     core_tags = [t for t in avail if t in BODY_CORE or t == 'while']
 
@@ -302,10 +312,12 @@ def while_programs():
             lines.extend(pool[tag][1])
             feats.update(pool[tag][3])
         head = ['{X} = xs[{K}]']
+        # under a narrow ambient context the counter steps exactly, or the original would not end
+        incr = ['{K} = {K} + 1'] if wrap is None else ['with fp.INTEGER:', '    {K} = {K} + 1']
         if incr_last:
-            body = head + lines + ['{K} = {K} + 1']
+            body = head + lines + incr
         else:
-            body = head + ['{K} = {K} + 1'] + lines
+            body = head + incr + lines
         corelines = [f'while {cond}:'] + _ind(body)
         src = _assemble(['{A} = KF - 3', '{C} = 1', '{K} = 0'], corelines, [RET], names,
                         wrap=NARROW[wrap] if wrap else None)
@@ -485,22 +497,22 @@ def all_programs(tier: str, seed: int = 0):
             rest.append(p)
     extra = []
     if tier == 'quick' and rest:
-        m = max(1, len(rest) // 160)         # ~160 extra programs
+        m = max(1, len(rest) // 100)         # ~100 extra programs
         extra = [p for i, p in enumerate(rest) if i % m == seed % m]
         for p in extra:
             p.tags = dict(p.tags, slice='seed')
     return progs, extra
 
 
-def inputs(tier: str):
-    """(xs, ys) pairs: every length 0..9, one value pattern (two in thorough)."""
-    pats = [(PI, E_)]
-    if tier != 'quick':
-        pats.append(([1, 6, 1, 8, 0, 3, 3, 9, 8], [5, 0, 2, 8, 8, 4, 1, 9, 7]))
+def inputs(tier: str, nested: bool = False):
+    """(xs, ys) pairs.  Programs without a nested loop: every length 0..9 (thorough: a second value
+    pattern, lengths 1..9).  Programs with a nested loop (quadratic cost): lengths 0..6 and 8
+    (thorough: second pattern, lengths 1..4)."""
     out = []
-    for a, b in pats:
-        for n in range(10):
-            if n == 0 and out:
-                continue
+    for n in ((0, 1, 2, 3, 4, 5, 6, 8) if nested else range(10)):
+        out.append((PI[:n], E_[:n]))
+    if tier != 'quick':
+        a, b = [1, 6, 1, 8, 0, 3, 3, 9, 8], [5, 0, 2, 8, 8, 4, 1, 9, 7]
+        for n in ((1, 2, 3, 4) if nested else range(1, 10)):
             out.append((a[:n], b[:n]))
     return out
